@@ -71,6 +71,37 @@ func ruleC02_7(c *Ctx) {
 			}
 		}
 	}
+	// Writev: the loop over the elements is left early (break) only after the current element was handed over
+	if fn := p.Method(pkgElastic, "Buffer", "Writev"); fn != nil {
+		bsP := fn.Params[1]
+		for _, sl := range rangeIndexLoops(fn) {
+			if strip(sl.coll) != ssa.Value(bsP) {
+				continue
+			}
+			for _, e := range sl.loop.exitEdges() {
+				if e[0] == sl.loop.Header {
+					continue
+				}
+				handed := false
+				for _, pb := range p.callsToAny(fn, pushBack, ringWrite) {
+					li := lift(pb.(ssa.Instruction), fn)
+					if li == nil {
+						continue
+					}
+					// in the iteration before the exit, or in the exit branch itself (a block that breaks is not part of the
+					// natural loop: `if len(b) > w { ring.Write(b[:w]); list.PushBack(b[w:]); break }`)
+					if sl.loop.Blocks[li.Block()] && (li.Block() == e[0] || li.Block().Dominates(e[0])) {
+						handed = true
+					}
+					if li.Block() == e[1] && len(e[1].Preds) == 1 {
+						handed = true
+					}
+				}
+				c.check(handed, "elastic.Buffer.Writev: early exit only after the current element was handed over", c.at(e[0].Instrs[len(e[0].Instrs)-1]), "break behind ring.Write / list.PushBack of the element",
+					"the loop over the vector is left on a path on which the current element was neither written to the ring nor pushed to the list, and the loop that files the remaining elements starts at the next index: one whole element silently disappears (an exact fit at the ring's limit loses one reply) and the stream is out of step from then on")
+			}
+		}
+	}
 	// Writev: the elements after the split one all go to the list, in order
 	if fn := p.Method(pkgElastic, "Buffer", "Writev"); fn != nil {
 		bs := fn.Params[1]
